@@ -16,7 +16,8 @@ VERIF = report.VERIF
 
 def corpus(seed, n_rows=300):
     sel, smi = [], []
-    for f in ("/repo/tests/test_specific_cases.py", "/repo/tests/test_selfies.py", "/repo/tests/test_selfies_utils.py"):
+    R = os.environ.get("VERIF_REPO", "/repo")
+    for f in (R + "/tests/test_specific_cases.py", R + "/tests/test_selfies.py", R + "/tests/test_selfies_utils.py"):
         try:
             txt = open(f).read()
         except OSError:
@@ -28,7 +29,7 @@ def corpus(seed, n_rows=300):
                 smi.append(m.group(1))
     rnd = random.Random(seed)
     rows = []
-    for f in sorted(glob.glob("/repo/tests/test_sets/**/*.csv", recursive=True)):
+    for f in sorted(glob.glob(R + "/tests/test_sets/**/*.csv", recursive=True)):
         try:
             rr = list(csv.DictReader(open(f)))
         except Exception:  # noqa
